@@ -47,6 +47,7 @@ from sigtools import modifiers
 LEVEL = 'proof'
 KNOWN_KEY = 'C11:raw-compare'
 WRAPS_KEY = 'C11:wraps-globals'
+ANNOT_KEY = 'C11:annotate-lost-in-discovery'
 NNAMES = 4
 # spellings 0..3 are names bound in every module; 4..7 are the string LITERALS 'T' ... 'X'
 # written as annotations.  A string object has the same number whether it occurs as the raw
@@ -384,6 +385,7 @@ def gen_world(rng, nfam=14, nrand=10, ninner=10, nwrap=24, ntpl=10, nrehome=12, 
                                 'how': rng.choice(['wraps', 'update_wrapper'])}})
     for _ in range(nwrap):
         m = rng.choice([3, 4])
+        same_module = rng.random() < 0.3
         outer = [p for p in random_sig(rng, 'xyz', 2, star_names=(('args', 'kwargs'),)) if p[1] not in ('VP', 'VK')]
         npos = len([p for p in outer if p[1] in POS])
         va, vk = rng.choice([(True, True), (True, True), (True, False), (False, True)])
@@ -392,6 +394,8 @@ def gen_world(rng, nfam=14, nrand=10, ninner=10, nwrap=24, ntpl=10, nrehome=12, 
         if vk:
             outer = outer + [(id_of_name('kwargs'), 'VK', None, None, ('E',))]
         callee = rng.choice(plain)      # (never a sibling: wrappers import real modules)
+        if same_module:
+            m = callee['mod']       # forwarding to a function of its own module (through a self-import)
         kwable = [p[0] for p in callee['params'] if p[1] in ('PK', 'KO')]
         kw = rng.sample(kwable, 1) if kwable and rng.random() < 0.3 else []
         fva = 'args' if va and (not vk or rng.random() < 0.9) else None
@@ -498,6 +502,17 @@ def gen_cases(rng, world, n):
             continue
         if groups.get('V') and rng.random() < 0.08:
             cases.append(wraps_case())
+            continue
+        if rng.random() < 0.06:
+            w = rng.choice(groups['W'])
+            ns = [p[0] for p in w['params']]
+            anns = [[x, rng.randint(1, NOBJ)] for x in rng.sample(ns, rng.randint(0, min(2, len(ns))))]
+            retv = rng.randint(1, NOBJ) if rng.random() < 0.5 or not anns else None
+            c = {'op': 'annauto', 'f': [w['fid']], 'anns': anns, 'retv': retv}
+            pks = [p[0] for p in w['params'] if p[1] == 'PK']
+            if pks and rng.random() < 0.3:
+                c['kwos'] = [x for x in pks if rng.random() < 0.6] or [pks[-1]]
+            cases.append(c)
             continue
         if k < 0.30:
             cases.append({'op': 'merge', 'f': related(rng.choice([2, 2, 2, 3]))})
@@ -606,6 +621,16 @@ def impl_call(world, case, mode):
         return s
     if op == 'auto':
         return sigtools.signature(F[fs[0]])
+    if op == 'annauto':
+        # modifiers.annotate on a forwarding function (optionally with a kwoargs translator
+        # underneath), then automatic discovery
+        c = world.clone(F[fs[0]], fs[0])
+        if case.get('kwos'):
+            c = modifiers.kwoargs(*[name_of(x) for x in case['kwos']])(c)
+            world.register(c, 4000)
+        args = [world.obj[case['retv']]] if case['retv'] is not None else []
+        modifiers.annotate(*args, **{name_of(x): world.obj[v] for x, v in case['anns']})(c)
+        return sigtools.signature(c)
     raise ValueError(op)
 
 
@@ -801,6 +826,23 @@ def model_term(world, case, mode):
         if len(fs) > 1:
             t = '(do a <- %s ;; merge [a; %s])' % (t, T(fs[1]))
         return t
+    if op == 'annauto':
+        # annotate stores the annotated signature as func.__signature__; autoforwards_function sets
+        # __signature__ aside and reads the function's OWN signature; only UnknownForwards falls back to
+        # the annotated one.  A translator (kwoargs) hands its own, annotated, signature to discovery.
+        spec = world.funcs[fs[0]]
+        c = spec['call']
+        ann = '(annotate %s [%s] %s)' % (
+            'None' if case['retv'] is None else '(Some (Some %d))' % case['retv'],
+            '; '.join('(%d, Some %d)' % (x, v) for x, v in case['anns']), T(fs[0]))
+        tail = '%s %d%%nat %s false false %s %s false' % (
+            T(c['callee']), c['n'], c_names(c['kw']), c_b(bool(c['va'])), c_b(bool(c['vk'])))
+        if case.get('kwos'):
+            return ('(do a <- %s ;; do o <- pok_prepare [] %s 4000 %d a ;; '
+                    'Ok (match (do f <- forwards o %s ;; merge [f]) with Ok r => r | Err _ => o end))' % (
+                        ann, c_names(case['kwos']), fs[0], tail))
+        return ('(do a <- %s ;; Ok (match (do f <- forwards %s %s ;; merge [f]) with Ok r => r | Err _ => a end))' % (
+            ann, T(fs[0]), tail))
     if op == 'auto':
         spec = world.funcs[fs[0]]
         c = spec['call']
@@ -915,7 +957,7 @@ def inputs_of(world, case):
         if case['op'] == 'wauto' and idx == 0:
             ps = [[nm, k, sp, world.truth(spec, sp), False] for nm, k, de, sp in own_view(spec)]
         r = world.truth(spec, spec['ret'])
-        if case['op'] == 'annot' and idx == 0:
+        if case['op'] in ('annot', 'annauto') and idx == 0:
             given = dict((x, v) for x, v in case['anns'])
             for p in ps:
                 if p[0] in given:
@@ -965,8 +1007,9 @@ def aligned_rolecons(world, cases):
 
 
 def oracle(world, case, mode, ans, alrc=False):
-    """Violations of C11 visible on one answer (independent of the model)."""
-    out = list(ans.get('notes', ()))
+    """Violations of C11 visible on one answer (independent of the model):
+    (key, text, subject) with subject = parameter name id, 'return' or None."""
+    out = [(k_, w_, None) for k_, w_ in ans.get('notes', ())]
     if not ans['ok'] or ans.get('broken'):
         return out
     ins = inputs_of(world, case)
@@ -979,7 +1022,7 @@ def oracle(world, case, mode, ans, alrc=False):
         cand = {p[3] for i in ins for p in i['params'] if p[3] is not None and related((nm, k), p)}
         if sv is not None and sv not in cand:
             out.append(('C11:wrong-context', 'parameter %s reports %s, which no contributing annotation denotes in its defining function\'s globals (possible: %s)' % (
-                name_of(nm), vname(sv), sorted(vname(x) for x in cand))))
+                name_of(nm), vname(sv), sorted(vname(x) for x in cand)), nm))
             continue
         exact = None
         if not star and len(cons) == 1 and (not multi or al or cons[0][1][1] == 'KO'):
@@ -997,9 +1040,9 @@ def oracle(world, case, mode, ans, alrc=False):
         if exact is not None and sv != exact[0]:
             key = 'C11:lost' if sv is None else 'C11:wrong-context'
             out.append((key, 'parameter %s reports %s; its annotation denotes %s in the defining function\'s globals' % (
-                name_of(nm), vname(sv), vname(exact[0]))))
+                name_of(nm), vname(sv), vname(exact[0])), nm))
     if ans['svr'] != ins[0]['ret']:
-        out.append(('C11:return', 'return annotation reports %s; the first input\'s denotes %s' % (vname(ans['svr']), vname(ins[0]['ret']))))
+        out.append(('C11:return', 'return annotation reports %s; the first input\'s denotes %s' % (vname(ans['svr']), vname(ins[0]['ret'])), 'return'))
     return out
 
 
@@ -1109,9 +1152,11 @@ def examine(world, cases, rep=None):
             agree[m] = idx not in dis
             if not agree[m]:
                 breaks.append((c, m, dis[idx], row[m]))
-            for key, what in oracle(world, c, m, row[m], alrc.get(ci, False)):
+            for key, what, subject in oracle(world, c, m, row[m], alrc.get(ci, False)):
                 if key in WRAPS_SYMPTOMS and agree[m] and wraps_involved(world, c):
                     key = WRAPS_KEY
+                elif agree[m] and annotate_lost(c, key, subject):
+                    key = ANNOT_KEY
                 viol.append((key, '[mode %s] %s -> %s: %s' % (m, show_case(world, rcases[ci]), row[m].get('text'), what), rcases[ci]))
         stats['ok' if row['e']['ok'] else 'err'] += 1
         if row['e']['ok']:
@@ -1152,6 +1197,22 @@ def wraps_involved(world, case):
     return False
 
 
+def annotate_lost(case, key, subject):
+    """the delimited class of C11:annotate-lost-in-discovery: modifiers.annotate was applied to a
+    PLAIN function (no translator underneath) that automatic discovery then resolves, and the
+    symptom is that a parameter named in annotate( ...) / the return annotation given to annotate
+    does not report the given value (the function's own syntax annotation, or nothing, instead).
+    Together with `the model predicted the implementation's answer exactly`."""
+    if case['op'] != 'annauto' or case.get('kwos'):
+        return False
+    if key not in ('C11:lost', 'C11:wrong-context', 'C11:return'):
+        return False
+    given = {x for x, v in case['anns']}
+    if case['retv'] is not None:
+        given.add('return')
+    return subject in given
+
+
 def case_key(world, c):
     return repr(sorted(c.items()))
 
@@ -1174,7 +1235,7 @@ def run(ctx, rep):
             viol, breaks, stats = examine(world, cases)
             total += len(cases) * len(MODES)
             for c in cases:
-                if any(p[3] is not None for f in c['f'] for p in world.funcs[f]['params']) or c['op'] == 'annot':
+                if any(p[3] is not None for f in c['f'] for p in world.funcs[f]['params']) or c['op'] in ('annot', 'annauto'):
                     rep.distinct.add((w, case_key(world, c)))
             for k, v in stats.items():
                 if isinstance(v, dict):
@@ -1207,7 +1268,7 @@ def run(ctx, rep):
 
 def all_fids(world, c):
     fids = list(c['f'])
-    if c['op'] == 'auto':
+    if c['op'] in ('auto', 'annauto'):
         fids.append(world.funcs[fids[0]]['call']['callee'])
     for f in list(fids):
         if world.funcs[f].get('wraps'):
